@@ -210,7 +210,7 @@ def rule_order(ctx):
                 "backup_copy_file must receive the input path and the raw bytes that were read, got (%s)" % expr_str(f, bk["i"]))
         # result compared with EX_OK, failing edge exits non-zero before any file operation
         par = [f.nodes[p] for p in f.parents().get(bk["i"], ())]
-        cmpn = [p for p in par if p["k"] == "bin" and p["op"] in ("!=", "==") and f.nodes[p["a"][1]]["k"] == "int" and f.nodes[p["a"][1]]["v"] == 0]
+        cmpn = [p for p in par if p["k"] == "bin" and p["op"] in ("!=", "==") and any(f.nodes[p["a"][k0]]["k"] == "int" and f.nodes[p["a"][k0]]["v"] == 0 for k0 in (0, 1))]
         ok = False
         wit = None
         if cmpn:
@@ -240,7 +240,7 @@ def rule_order(ctx):
     # nonzero exit of rename failure
     for rn in renames:
         par = [f.nodes[p] for p in f.parents().get(rn["i"], ())]
-        cmpn = [p for p in par if p["k"] == "bin" and p["op"] == "!=" and f.nodes[p["a"][1]]["k"] == "int" and f.nodes[p["a"][1]]["v"] == 0]
+        cmpn = [p for p in par if p["k"] == "bin" and p["op"] == "!=" and any(f.nodes[p["a"][k0]]["k"] == "int" and f.nodes[p["a"][k0]]["v"] == 0 for k0 in (0, 1))]
         ok = False
         if cmpn:
             for bb, blk in f.blocks.items():
